@@ -92,7 +92,11 @@ impl<T: Types> RaftLogWriter<T> for RaftLog<T> {
         let log_id = if index == T::next_log_index(purged) {
             purged.cloned()
         } else {
-            let log_id = self.get_log_id(index - 1)?;
+            let prev = index
+                .checked_sub(1)
+                .ok_or_else(|| LogIndexNotFound::new(index))
+                .map_err(RaftLogStateError::<T>::from)?;
+            let log_id = self.get_log_id(prev)?;
             Some(log_id)
         };
 
